@@ -501,6 +501,21 @@ fn read_operations_since_from_file(
                 total_size,
                 no_more_smaller
             );
+            // Records can share a timestamp: step back to the first one still at or after since
+            let mut first_point = seek_point;
+            while first_point >= size_as_u64 {
+                let mut previous_time_buffer = [0; OP_TIME_SIZE];
+                f.seek(SeekFrom::Start(first_point - size_as_u64)).unwrap();
+                f.read(&mut previous_time_buffer).unwrap();
+                let previous_time = u64::from_le_bytes(previous_time_buffer);
+                if previous_time < since {
+                    break;
+                }
+                opp_time = previous_time;
+                first_point = first_point - size_as_u64;
+            }
+            f.seek(SeekFrom::Start(first_point + OP_TIME_SIZE as u64))
+                .unwrap();
             while let Ok(byte_read) = f.read(&mut key_buffer) {
                 if byte_read == 0 {
                     break;
